@@ -7,6 +7,72 @@ From RecordUpdate Require Import RecordSet.
 Import RecordSetNotations.
 Open Scope N_scope.
 
+(* the four component types are implicit in the engine functions, locally to this file *)
+#[local] Arguments init {enc dec} _ {ores ires} _ _.
+#[local] Arguments release {enc dec ores ires} _ _ _ _.
+#[local] Arguments disconnect_completion {enc dec ores ires} _ _.
+#[local] Arguments fail_op {enc dec ores ires} _ _ _ _.
+#[local] Arguments ping_extension {enc dec ores ires} _ _.
+#[local] Arguments succeed_op {enc dec ores ires} _ _ _ _.
+#[local] Arguments fail_all {enc dec ores ires} _ _ _ _.
+#[local] Arguments succeed_all {enc dec ores ires} _ _ _.
+#[local] Arguments andthen {enc dec ores ires} _ _.
+#[local] Arguments try_ {enc dec ores ires} _ _.
+#[local] Arguments pure {enc dec ores ires} _.
+#[local] Arguments create_operation {enc dec ores ires} _ _.
+#[local] Arguments passes_now {enc dec ores ires} _ _ _.
+#[local] Arguments user_event {enc dec ores ires} _ _ _ _.
+#[local] Arguments create_connect {enc dec ores ires} _ _.
+#[local] Arguments net_opened {enc dec} _ {ores ires} _ _ _.
+#[local] Arguments op_exists {enc dec ores ires} _ _.
+#[local] Arguments op_passes {enc dec ores ires} _ _ _.
+#[local] Arguments partition_policy {enc dec ores ires} _ _ _.
+#[local] Arguments closed_current {enc dec ores ires} _ _.
+#[local] Arguments slow_start_init {enc dec ores ires} _ _.
+#[local] Arguments update_retries {enc dec ores ires} _ _.
+#[local] Arguments fail_exceeding {enc dec ores ires} _ _.
+#[local] Arguments has_pubrel {enc dec ores ires} _ _.
+#[local] Arguments net_closed_raw {enc dec ores ires} _ _.
+#[local] Arguments net_closed {enc dec ores ires} _ _.
+#[local] Arguments net_write_completion {enc dec ores ires} _ _.
+#[local] Arguments acquire_free_pid {enc dec ores ires} _ _.
+#[local] Arguments acquire_pid_for {enc dec ores ires} _ _.
+#[local] Arguments unbind {enc dec ores ires} _ _.
+#[local] Arguments passes_receive_max {enc dec ores ires} _ _.
+#[local] Arguments throttled {enc dec ores ires} _ _.
+#[local] Arguments has_pending_ack {enc dec ores ires} _.
+#[local] Arguments dequeue {enc dec ores ires} _ _ _.
+#[local] Arguments fully_written {enc dec ores ires} _ _.
+#[local] Arguments service_keep_alive {enc dec ores ires} _ _ _.
+#[local] Arguments process_ack_timeouts {enc dec ores ires} _ _ _.
+#[local] Arguments halt_on_error {enc dec ores ires} _ _.
+#[local] Arguments next_service_time {enc dec ores ires} _ _ _.
+#[local] Arguments build_settings {enc dec ores ires} _ _ _.
+#[local] Arguments apply_session {enc dec ores ires} _ _ _.
+#[local] Arguments hres_of {enc dec ores ires} _ _.
+#[local] Arguments pre_connack {enc dec ores ires} _.
+#[local] Arguments sum_ss {enc dec ores ires} _.
+#[local] Arguments handle_pingresp {enc dec ores ires} _.
+#[local] Arguments handle_suback {enc dec ores ires} _ _ _.
+#[local] Arguments handle_unsuback {enc dec ores ires} _ _ _.
+#[local] Arguments publish_qos_of {enc dec ores ires} _ _.
+#[local] Arguments handle_puback {enc dec ores ires} _ _ _.
+#[local] Arguments handle_pubrec {enc dec ores ires} _ _ _.
+#[local] Arguments handle_pubrel {enc dec ores ires} _ _.
+#[local] Arguments handle_pubcomp {enc dec ores ires} _ _ _.
+#[local] Arguments handle_publish {enc dec ores ires} _ _.
+#[local] Arguments handle_disconnect {enc dec ores ires} _ _ _.
+#[local] Arguments is_connect_op {enc dec ores ires} _ _.
+#[local] Arguments connect_in_queue {enc dec ores ires} _.
+#[local] Arguments reset {enc dec ores ires} _ _.
+#[local] Arguments out_of_res {enc dec ores ires} _ _.
+#[local] Arguments nst_queue {enc dec ores ires} _ _ _ _.
+#[local] Arguments earliest_tmo {enc dec ores ires} _.
+#[local] Arguments SeatStop {enc dec ores ires} _.
+#[local] Arguments SeatContinue {enc dec ores ires} _ _.
+#[local] Arguments SeatEncode {enc dec ores ires} _.
+
+
 Section Seat.
   Variable enc : Type.
   Variable enc_reset : version -> packet -> resolution -> outcome enc.
@@ -24,7 +90,7 @@ Section Seat.
   Variable v_out : option settings -> connect_opts -> resolution -> packet -> outcome unit.
   Variable v_in : option settings -> packet -> outcome unit.
   Variable cfg : config.
-  Hypothesis HC : comps_ok enc enc_reset enc_call dec dec_feed ores ores_resolve ires ires_resolve v_out v_in.
+  Variable HC : comps_ok enc enc_reset enc_call dec dec_init dec_feed ores ores_reset ores_resolve ires ires_reset ires_resolve v_out v_in.
 
   Notation state := (state enc dec ores ires).
   Notation seat_current := (seat_current enc enc_reset dec ores ores_reset ores_resolve ires v_out cfg).
@@ -51,14 +117,20 @@ Section Seat.
 
   Definition seat_post (m : bool) (s : state) (acc : bytes) (r : seat enc dec ores ires) : Prop :=
     match r with
-    | SeatStop r => (forall site, sr_out r <> Panic site) /\ WFS (sr_s r) /\ (sr_out r = Ok tt -> sr_s r = s) /\ sr_bytes r = acc /\
+    | SeatStop r => cinv HC (sr_s r) /\
+        (forall site, sr_out r <> Panic site) /\ WFS (sr_s r) /\ (sr_out r = Ok tt -> sr_s r = s) /\ sr_bytes r = acc /\
         (s_st (sr_s r) = s_st s \/ s_st s = PendingDisconnect)
     | SeatContinue s' dn' =>
-        WFS s' /\ s_cur s' = None /\ exists id,
+        cinv HC s' /\ WFS s' /\ s_cur s' = None /\ exists id,
           (getop s id = None /\ seat_keep s' = seat_keep s /\ dq_rel m s s' id /\ s_ops s' = s_ops s /\ s_enc s' = s_enc s) \/
           (exists s4, seated m s s4 id /\ frame_c [id] s4 s' /\ s_cur s4 = None /\ W9 cfg s' /\ getop s' id = None)
-    | SeatEncode s' => WFS s' /\ exists id, seated m s s' id /\ s_cur s' = Some id /\ s_enc s' <> None
+    | SeatEncode s' => cinv HC s' /\ WFS s' /\ exists id, seated m s s' id /\ s_cur s' = Some id /\ s_enc s' <> None
     end.
+
+  Lemma cinv_set (s s' : state) :
+    cinv HC s -> s_dec s' = s_dec s -> s_ires s' = s_ires s -> ores_inv HC (s_ores s') ->
+    (forall e, s_enc s' = Some e -> enc_inv HC e) -> cinv HC s'.
+  Proof. intros (A & B & C & D) E1 E2 E3 E4. unfold cinv. rewrite E1, E2. tauto. Qed.
 
   (* all fields but the outbound resolver *)
   Definition but_ores (s : state) :=
@@ -123,25 +195,32 @@ Section Seat.
 
   Lemma seat_tail_spec (m : bool) (s s3 : state) id o' acc dn :
     WFS s3 -> s_cur s3 = Some id -> getop s3 id = Some o' -> seated m s s3 id -> W9 cfg s3 ->
-    (s_settings s3 <> None \/ (is_connect (op_packet o') = true /\ op_pubrel o' = None)) ->
+    (s_settings s3 <> None \/ (is_connect (op_packet o') = true /\ op_pubrel o' = None)) -> cinv HC s3 ->
     seat_post m s acc (seat_tail s3 id o' acc dn).
   Proof.
-    intros HW Hc Hid Hsd H9 Hv. unfold seat_tail.
+    intros HW Hc Hid Hsd H9 Hv HI. unfold seat_tail. pose proof HI as (HIe & HId & HIo & HIi).
     assert (Hst3 : s_st s3 = s_st s) by (destruct Hsd as [K _ _ _ _]; unfold seat_keep in K; repeat (apply pair_equal_spec in K; destruct K as [K ?]); congruence).
     set (packet := match op_pubrel o' with Some pr => pr | None => op_packet o' end).
     (* the resolution step only touches the resolver *)
     assert (Hres : match (match packet with
                           | Publish pb => do (o2, r) <- ores_resolve (s_ores s3) (pub_alias pb) (pub_topic pb) ; Ok (s3 <| s_ores := o2 |>, r)
                           | _ => Ok (s3, no_resolution) end) with
-                   | Ok (s4, r) => but_ores s4 = but_ores s3
+                   | Ok (s4, r) => but_ores s4 = but_ores s3 /\ ores_inv HC (s_ores s4)
                    | Err _ => True
                    | Panic _ => False end).
-    { destruct packet; try reflexivity.
-      destruct (ores_resolve (s_ores s3) (pub_alias p) (pub_topic p)) as [[o2 r]|k|site] eqn:Er; cbn [obind]; try exact I; try reflexivity.
-      exact (co_ores _ _ _ _ _ _ _ _ _ _ _ HC _ _ _ _ Er). }
+    { destruct (co_ores HC (s_ores s3)) with (a := match packet with Publish pb => pub_alias pb | _ => None end)
+                                              (t := match packet with Publish pb => pub_topic pb | _ => [] end) as (Hnp & Hinv); [exact HIo|].
+      destruct packet; try (split; [reflexivity|exact HIo]).
+      destruct (ores_resolve (s_ores s3) (pub_alias p) (pub_topic p)) as [[o2 r]|k|site] eqn:Er; cbn [obind]; try exact I.
+      - split; [reflexivity|]. cbn. eapply Hinv. reflexivity.
+      - eapply Hnp. reflexivity. }
     destruct (match packet with
               | Publish pb => do (o2, r) <- ores_resolve (s_ores s3) (pub_alias pb) (pub_topic pb) ; Ok (s3 <| s_ores := o2 |>, r)
               | _ => Ok (s3, no_resolution) end) as [[s4 r]|k|site]; [|cbn; splits; auto; [intros; discriminate|discriminate]|destruct Hres].
+    destruct Hres as (Hres & HIo4).
+    assert (HI4 : cinv HC s4).
+    { pose proof Hres as Hb. unfold but_ores in Hb. repeat (apply pair_equal_spec in Hb; destruct Hb as [Hb ?]).
+      apply (cinv_set s3 s4 HI); try congruence. replace (s_enc s4) with (s_enc s3) by congruence. exact HIe. }
     assert (Hc4 : core_of s4 = core_of s3) by (apply core_but_ores; exact Hres).
     assert (HW4 : WFS s4) by (unfold WFS, WFSx; rewrite Hc4; exact HW).
     pose proof (seated_ores m s s3 s4 id Hsd Hres) as Hsd4.
@@ -150,18 +229,26 @@ Section Seat.
     destruct Hf4 as (F1 & F2 & F3 & F4 & F5).
     destruct (v_out (s_settings s4) (cf_connect cfg) r packet) as [u|k|site] eqn:Ev.
     - (* validated: reset the encoder *)
+      destruct (co_enc_reset HC (cf_version cfg) packet r) as (Hnpe & Hinve).
       destruct (enc_reset (cf_version cfg) packet r) as [e|k|site] eqn:Ee.
-      + cbn. split; [exact HW4|]. exists id. split; [|split; [cbn; congruence|cbn; discriminate]].
+      + cbn. split; [|split; [exact HW4|]].
+        { destruct HI4 as (_ & B4 & C4 & D4). unfold cinv. cbn. splits; auto. intros e0 He0. inversion He0; subst. apply Hinve. reflexivity. }
+        exists id. split; [|split; [cbn; congruence|cbn; discriminate]].
         eapply seated_xfer; [exact Hsd4| | | | |]; reflexivity.
       + cbn. splits; auto; [intros; discriminate|discriminate|left; congruence].
-      + exfalso. exact (co_enc_reset _ _ _ _ _ _ _ _ _ _ _ HC _ _ _ _ Ee).
+      + exfalso. eapply Hnpe. reflexivity.
     - (* validation failed: the operation is failed and the loop continues *)
       set (s4' := match r_alias r with
                   | Some _ => s4 <| s_ores := ores_reset (s_ores s4)
                                 (match s_settings s4 with Some st => st_topic_alias_maximum_to_server st | None => 0 end) |>
                   | None => s4 end).
       assert (Hb' : but_ores s4' = but_ores s4) by (unfold s4'; destruct (r_alias r); reflexivity).
+      assert (HIo4' : ores_inv HC (s_ores s4')).
+      { unfold s4'. destruct (r_alias r); [cbn; apply (co_ores_reset HC); exact HIo4|exact HIo4]. }
       clearbody s4'.
+      assert (HI4' : cinv HC s4').
+      { pose proof Hb' as Hb. unfold but_ores in Hb. repeat (apply pair_equal_spec in Hb; destruct Hb as [Hb ?]).
+        apply (cinv_set s4 s4' HI4); try congruence. replace (s_enc s4') with (s_enc s4) by congruence. apply HI4. }
       assert (Hc4' : core_of s4' = core_of s4) by (apply core_but_ores; exact Hb').
       pose proof (seated_ores m s s4 s4' id Hsd4 Hb') as Hsd4'.
       assert (Hf4' : s_cur s4' = s_cur s4 /\ s_ops s4' = s_ops s4 /\ s_st s4' = s_st s4 /\ s_ss_count s4' = s_ss_count s4).
@@ -183,8 +270,10 @@ Section Seat.
       { apply (WFc_unexempt [id] _ (fs_wfs _ _ _ _ _ F)).
         - intros i o p [<-|[]] Hi. unfold getop in Hgone. unfold gop in Hi. cbn in Hi. congruence.
         - intros i o [<-|[]] Hi. unfold getop in Hgone. unfold gop in Hi. cbn in Hi. congruence. }
+      assert (HIf : cinv HC (r_s rf)).
+      { eapply cinv_comp; [|exact HI4']. rewrite (rest_comp _ _ (fc_rest _ _ _ (fs_frame _ _ _ _ _ F))). reflexivity. }
       destruct (r_out rf) as [u|k'|site] eqn:Eo.
-      + cbn. split; [exact HWf|]. split.
+      + cbn. split; [exact HIf|]. split; [exact HWf|]. split.
         * destruct (rest_fields _ _ (fc_rest _ _ _ (fs_frame _ _ _ _ _ F))) as (_ & _ & _ & R4 & _). rewrite R4. reflexivity.
         * exists id. right. exists sX. split; [|split; [apply F|split; [reflexivity|split; [apply F|exact Hgone]]]].
           eapply seated_xfer; [exact Hsd4'| | | | |]; reflexivity.
@@ -193,11 +282,11 @@ Section Seat.
       + exfalso. exact (fs_nopanic _ _ _ _ _ F _ Eo).
     - (* the validator never panics *)
       exfalso. rewrite F1 in Ev. destruct Hv as [Hv|[Hv1 Hv2]].
-      + destruct (s_settings s3) as [st|]; [|congruence]. exact (co_v_out_some _ _ _ _ _ _ _ _ _ _ _ HC _ _ _ _ _ Ev).
+      + destruct (s_settings s3) as [st|]; [|congruence]. exact (co_v_out_some HC _ _ _ _ _ Ev).
       + unfold packet in Ev. rewrite Hv2 in Ev. destruct (op_packet o'); try discriminate.
         destruct (s_settings s3) as [st|].
-        * exact (co_v_out_some _ _ _ _ _ _ _ _ _ _ _ HC _ _ _ _ _ Ev).
-        * exact (co_v_out_connect _ _ _ _ _ _ _ _ _ _ _ HC _ _ _ _ Ev).
+        * exact (co_v_out_some HC _ _ _ _ _ Ev).
+        * exact (co_v_out_connect HC _ _ _ _ Ev).
   Qed.
 
   Lemma seat_current_unfold (s : state) m acc dn :
@@ -230,14 +319,15 @@ Section Seat.
     WFS s -> s_cur s = None -> W9 cfg s ->
     (s_settings s <> None \/
      (m = false /\ forall id o, In id (s_hq s) -> getop s id = Some o -> is_connect (op_packet o) = true)) ->
+    cinv HC s ->
     seat_post m s acc (seat_current s m acc dn).
   Proof.
-    intros HW Hcur H9 Hv. rewrite seat_current_unfold, Hcur.
+    intros HW Hcur H9 Hv HI. rewrite seat_current_unfold, Hcur.
     destruct (dequeue cfg s m) as [s1 next] eqn:Edq.
     assert (E1 : fst (dequeue cfg s m) = s1) by (rewrite Edq; reflexivity).
     assert (E2 : snd (dequeue cfg s m) = next) by (rewrite Edq; reflexivity).
     destruct next as [id|].
-    2:{ rewrite <- E1, (dequeue_none cfg s m E2). cbn. splits; auto. intros; discriminate. }
+    2:{ rewrite <- E1, (dequeue_none cfg s m E2). cbn. splits; auto; intros; discriminate. }
     destruct (dequeue_some cfg s m id E2) as (B & Q & D). rewrite E1 in B, Q, D.
     destruct (but_queues_fields _ _ B) as (B1 & B2 & B3 & B4 & B5 & B6 & B7 & B8 & B9 & B10 & B11 & B12 & B13 & B14 & B15).
     assert (Dq : dq_rel m s s1 id) by exact D.
@@ -252,10 +342,12 @@ Section Seat.
           intuition (try (match goal with H : Some _ = Some _ |- _ => inversion H; subst end); auto).
       - intros i Hi. left. destruct D as [(D1 & D2 & D3)|(D0 & D1 & D2 & _)]; [rewrite D1; right; exact Hi|rewrite D2 in Hi; destruct Hi].
       - rewrite B9. auto. }
+    assert (HI2 : cinv HC s2).
+    { eapply cinv_comp; [|exact HI]. unfold comp_of. cbn. pose proof B as Bt. unfold but_queues in Bt. tuple_eqs Bt. congruence. }
     cbv zeta. fold s2.
     destruct (op_exists s2 id) eqn:Eex; cbn [negb].
     2:{ (* stale id: skip *)
-        cbn. split; [|split; [reflexivity|]].
+        cbn. split; [exact HI2|]. split; [|split; [reflexivity|]].
         - eapply WFS_queues; [exact HW2| | | | | | | | | | |]; cbn; auto; try tauto.
           + core_cbn. cbn. intros p i o Hi Hp T. destruct T as [T|[T|[T|[T|T]]]]; try tauto.
             inversion T; subst i. unfold op_exists in Eex. unfold getop in Hi. cbn in Hi, Eex. rewrite Hi in Eex. discriminate.
@@ -271,6 +363,8 @@ Section Seat.
     destruct (acquire_pid_for s2 id) as [s3|k|site]; [|cbn; splits; auto; [intros; discriminate|discriminate]|destruct Haq].
     destruct Haq as (HW3 & Baq & (o' & Ho' & Hrel & Hbound) & Hother & Hsum).
     unfold getop in Ho'. rewrite Ho'.
+    assert (HI3 : cinv HC s3).
+    { eapply cinv_comp; [|exact HI2]. unfold comp_of. pose proof Baq as Bt. unfold but_aq in Bt. tuple_eqs Bt. congruence. }
     unfold but_aq in Baq. tuple_eqs Baq. unfold s2 in *. cbn in *.
     assert (Hsd : seated m s s3 id).
     { constructor.
@@ -300,4 +394,3 @@ Arguments seat_keep {enc dec ores ires} s.
 Arguments dq_rel {enc dec ores ires} m s s' id.
 Arguments seated {enc dec ores ires} m s s' id.
 Arguments but_ores {enc dec ores ires} s.
-Arguments seat_post {enc dec ores ires} cfg m s acc r.
